@@ -50,6 +50,7 @@ class C11Commands(Oracle):
         self.inst: dict[int, dict[str, Any]] = {}
         self.exec_this_tick: dict[str, set[int]] = {}
         self.tick_seen = -2
+        self.by_iid: dict[str, int] = {}
 
     def on_probe(self, ev):
         tick, phase, name, inst, it, args = ev[:6]
@@ -61,6 +62,15 @@ class C11Commands(Oracle):
         if phase == "init":
             d["init"] += 1
             d["init_tick"] = tick
+            # one invocation (engine instance id = run-log item id) is carried out by one command object: a request that
+            # is initialized a second time under the same id has started its command again from the beginning
+            iid = ev[6] if len(ev) > 6 else ""
+            if iid:
+                prev = self.by_iid.setdefault(iid, inst)
+                if prev != inst:
+                    self.v("C11", "C11.invocation_started_again" + self.w.ctx(), name,
+                           f"invocation {iid[-4:]} of {name} was initialized as instance {prev} (tick "
+                           f"{self.inst[prev]['init_tick']}) and again as instance {inst} in tick {tick}")
             if d["init"] > 1:
                 self.v("C11", "C11.initialized_twice", name, f"instance {inst} of {name} initialized {d['init']} times")
             if d["exec"] > 0:
@@ -698,6 +708,8 @@ class C03Thresholds(Oracle):
                        f"{n.text.strip()!r} started in tick {k}: {detail}")
             elif ok:
                 self.res.probe("threshold_checked")
+                if not inter and self.exact and n.kind != "Block":     # a Block may also wait for the block lock
+                    self._not_late(n, states, k)
         if not self.exact:
             return
         # Wait durations (exact 0.1 s ticks, main path, no pause/hold/error overlap)
@@ -741,6 +753,41 @@ class C03Thresholds(Oracle):
 
 
         self._repeated_waits(w, recs)
+
+    def _not_late(self, n, states, k):
+        """Exact dispatch, time base s only: the instruction begins to wait in tick a (state awaitingthreshold); it passes in
+        the first tick j >= a whose clock - as the interpreter sees it, before that tick's clock update - is not below the
+        threshold (the engine compares the decimal strings), and it starts in tick j + 1. Judged only when every tick from
+        a to k was a Running tick."""
+        import decimal
+        aw = [x for x in states if x[0] == "awaitingthreshold"]
+        if not aw or len([x for x in states if x[0] == "started"]) != 1:
+            return
+        a = aw[0][1]
+        if any(t in self.disturbed_ticks for t in range(a - 1, k + 1)):
+            return
+        j_star = None
+        for j in range(a, k + 1):
+            b = self.before.get(j)
+            if b is None or b["base"] != "s":
+                return
+            have = b["BT"] if b["blk"] not in (None, "") else b["ST"]
+            try:
+                reached = not (decimal.Decimal(str(have)) < decimal.Decimal(str(n.threshold)))
+            except Exception:
+                return
+            if reached:
+                j_star = j
+                break
+        if j_star is None:
+            return
+        if k > j_star + 1:
+            self.v("C03", "C03.started_later_than_threshold", n.kind,
+                   f"{n.text.strip()!r} waited from tick {a}; its clock reached the threshold {n.threshold} s in tick {j_star} "
+                   f"({self.before[j_star]['BT'] if self.before[j_star]['blk'] else self.before[j_star]['ST']}), "
+                   f"it started in tick {k} instead of {j_star + 1}")
+        else:
+            self.res.probe("threshold_not_late_checked")
 
     def _repeated_waits(self, w, recs):
         """Every invocation of a Wait (macro called again, alarm body run again) lasts its duration: for each invocation
